@@ -88,8 +88,8 @@ class RecordAddRegion:
 
     def requires(self, region):
         return (regions_sorted_and_disjoint(self._regions) and extent_ok(region)
-                and region.location.end <= self._verif_length
-                and forall(range(0, len(self._regions)), lambda j: self._regions[j].location.end <= self._verif_length)
+                and region.location.end <= len(self)
+                and forall(range(0, len(self._regions)), lambda j: self._regions[j].location.end <= len(self))
                 and numbered_in_order(self, len(self._regions)))
 
     raises = {"ValueError": lambda self, region:
